@@ -39,13 +39,20 @@ func Inspect(f *os.File) (Info, error) {
 		info.Size = s.Size()
 	}
 
-	r := io.LimitReader(f, MaxReadSize)
+	// one byte more than is kept: whether the source holds more than MaxReadSize bytes has to come from the read itself —
+	// Stat knows nothing about pipes, and for a standard input redirected from a file it also counts what lies before
+	// the read position
+	r := io.LimitReader(f, MaxReadSize+1)
 	data, err := io.ReadAll(r)
 	if err != nil {
 		return info, fmt.Errorf("f.Read: %w", err)
 	}
+	available := int64(len(data))
+	if available > MaxReadSize {
+		data = data[:MaxReadSize]
+	}
 
-	for _, parse := range candidateParsers(info, data) {
+	for _, parse := range candidateParsers(info, data, available) {
 		var i Info
 		i, err := parse(info, data)
 		if err != nil {
@@ -58,10 +65,12 @@ func Inspect(f *os.File) (Info, error) {
 	return info, nil
 }
 
-func candidateParsers(info Info, data []byte) []Parser {
+// candidateParsers: available is the number of bytes the source held from the read position on (len(data), or more when
+// only the first MaxReadSize of them were kept)
+func candidateParsers(info Info, data []byte, available int64) []Parser {
 	var ps []Parser
 	for _, p := range filetypes {
-		if p.MatchesName(info.Path) || p.MatchesMagic(data) || p.SmellsLike(info.Path, data, info.Size) {
+		if p.MatchesName(info.Path) || p.MatchesMagic(data) || p.SmellsLike(info.Path, data, available) {
 			ps = append(ps, p.parser)
 		}
 	}
